@@ -6,6 +6,7 @@ import AuthProofs.StateInventory
 import AuthProofs.Ladder
 import AuthProofs.UrlLemmas
 import AuthModel.Generated.Facts
+import AuthProofs.CodeEquivResp
 namespace AuthProps.C13
 open AuthModel AuthModel.Oidc AuthModel.Str
 
@@ -54,6 +55,33 @@ theorem no_cache_headers_match_source : stdHeaders = Generated.stdHeaders := by 
 
 example : queryEscape (B "a b&c=d/~?") = B "a+b%26c%3Dd%2F~%3F" := by decide
 
+/-! ### the same, about the code as translated from the source (Generated/CodeOidc.lean) -/
+
+/-- THE CODE's redirect answers: `newDenyResponse` then `setRedirect` (then, with a new session or at logout,
+    `setSetCookieHeader`) then `setDenyResponse(…, Unauthenticated)` - composed as the call sites of oidc.go compose them -
+    cannot panic on a non-nil response and ARE the model's `found` / `redirectWithCookie`: HTTP 302, the no-cache pair
+    first, then Location (then Set-Cookie) -/
+theorem code_redirects_no_cache (env : Go.Env) (resp : Pb.CheckResponse) (loc cookie : Str) (hr : resp.isNil = false) :
+    (∃ r, (do let d ← Code.newDenyResponse env
+              let d ← Code.setRedirect env d loc
+              Code.setDenyResponse env resp d 16) = .ok r ∧
+      CodeEquiv.respOf r = { code := cUnauthenticated, http := .denied { status := 302, headers := stdHeaders ++ [(B "location", loc)] } }) ∧
+    (∃ r, (do let d ← Code.newDenyResponse env
+              let d ← Code.setRedirect env d loc
+              let d ← Code.setSetCookieHeader env d cookie
+              Code.setDenyResponse env resp d 16) = .ok r ∧
+      CodeEquiv.respOf r = { code := cUnauthenticated, http := .denied { status := 302, headers := stdHeaders ++ [(B "location", loc), (B "set-cookie", cookie)] } }) :=
+  ⟨CodeEquiv.code_found env resp loc hr, CodeEquiv.code_redirectWithCookie env resp loc cookie hr⟩
+
+/-- the package-level `standardResponseHeaders` of the code is the no-cache pair -/
+theorem code_standard_headers : CodeEquiv.hdrsOf Code.standardResponseHeaders = [(B "cache-control", B "no-cache"), (B "pragma", B "no-cache")] := by decide
+
+/-- `setRedirect` only appends: whatever headers the denial had, it still has -/
+theorem code_redirect_keeps_headers (env : Go.Env) (d : Pb.DeniedHttpResponse) (loc : Str) (hd : d.isNil = false) :
+    ∀ d', Code.setRedirect env d loc = .ok d' → ∀ h ∈ (CodeEquiv.deniedOf d).headers, h ∈ (CodeEquiv.deniedOf d').headers :=
+  CodeEquiv.code_redirect_keeps_headers env d loc hd
+
+
 /-- NO HIDDEN STATE: the model treats a check as a function of (configuration, request, store answers, clock, IdP and key-source answers, entropy); that is a faithful reading of the code only if nothing else survives from one check to the next. Regenerated on every run: every package-level variable and struct field of internal/server, internal/authz, internal/http, internal/oidc is the classified expectation, and handlers, filter, HTTP helpers and the Redis store own no mutable state (no verdict cache, handler cache, object pool, single-flight group or per-process copy of session data). -/
 theorem no_hidden_state : CheckPathInventory := check_path_inventory
 
@@ -69,3 +97,6 @@ end AuthProps.C13
 #print axioms AuthProps.C13.redirects_no_cache
 #print axioms AuthProps.C13.no_cache_headers_match_source
 #print axioms AuthProps.C13.no_hidden_state
+#print axioms AuthProps.C13.code_redirects_no_cache
+#print axioms AuthProps.C13.code_standard_headers
+#print axioms AuthProps.C13.code_redirect_keeps_headers
